@@ -54,6 +54,7 @@ func NewAcceptorHandler(ctx context.Context, msgTypeTag string, bufferSize int) 
 	}
 
 	sh.ctx, sh.cancel = context.WithCancel(ctx)
+	verifTrace("new-acceptor", sh, nil)
 
 	return sh
 }
@@ -73,6 +74,7 @@ func NewInitiatorHandler(ctx context.Context, msgTypeTag string, bufferSize int)
 	}
 
 	sh.ctx, sh.cancel = context.WithCancel(ctx)
+	verifTrace("new-initiator", sh, nil)
 
 	return sh
 }
@@ -105,6 +107,7 @@ func (h *DefaultHandler) send(msg SendingMessage) error {
 	if err != nil {
 		return err
 	}
+	verifTrace("out", h, data)
 
 	return h.sendRaw(data)
 }
@@ -172,6 +175,7 @@ func (h *DefaultHandler) ServeIncoming(msg []byte) {
 }
 
 func (h *DefaultHandler) serve(msg []byte) (err error) {
+	verifTrace("in", h, msg)
 	msgTypeB, err := fix.ValueByTag(msg, h.msgTypeTag)
 	if err != nil {
 		return fmt.Errorf("msg type: %w", err)
